@@ -1239,7 +1239,8 @@ bool _nthroot_mod_prime_power(std::vector<RCP<const Integer>> &roots,
                 t = pk / pc * root;
                 for (unsigned i = 0; i < 2; ++i) {
                     for (unsigned long j = 0; j < pc; ++j) {
-                        roots.push_back(integer(root));
+                        mp_fdiv_r(s, root, pk);
+                        roots.push_back(integer(s));
                         root += t;
                     }
                     root = t - root;
